@@ -330,7 +330,7 @@ func bucketClockScenario(c *sup.Ctx, r *rng.R) {
 func init() {
 	sup.Register(&sup.Check{
 		Prop: "C04", Level: "exploration",
-		Rule: "(clock unit) a HybridLogicalClock built with the verif-only constructor reads a scripted physical clock (constant, decreasing, saw-tooth, backward jumps, sub-granularity advance, runs of equal readings, zero, near 2^62, random) from 1-64 goroutines, optionally seeded above the clock: per-caller strict increase, global uniqueness, above the seed, and real-time order (a call that started after another returned gets a larger timestamp) are checked by an n log n sweep; (bucket) the same scripts are installed into the process-global clock while 3-8 writers hit 2-3 buckets (memory and disk mixed) through the CAS-returning regular entry points: same checks over casOut across all buckets, no two events of a collection share a CAS, and per key the CAS grows strictly along the order in which the writes were applied (delivery order and revision numbers of live feeds on every collection, flushed by a sentinel) the stored CAS is the largest any writer was handed for that key and equals the CAS of the last applied write (Add and Delete, which return no CAS, are in the mix; in a third of the scenarios replicated versions of the same keys arrive with a CAS ten minutes ahead, which every later regular write of the key must exceed); (reopen) writer and reopener child processes with a rewound clock: see the C10 engine part 'reopen-clock' (half of the pairs after WithMeta writes carrying old CAS values into several collections, a quarter ending with such a write into a collection of its own); blind Set / SetRaw writes with and without PreserveExpiry; the stored CAS of every key must equal the CAS of its last event; (reopen) pairs whose last write is a replicated version with a CAS ahead of the writer's clock: a CAS-checked rewrite of that key after the reopen must get a larger CAS; Append writes in the bucket-clock runs; cell = (clock class, callers, seeded) / (clock class, buckets, writers)",
+		Rule: "(clock unit) a HybridLogicalClock built with the verif-only constructor reads a scripted physical clock (constant, decreasing, saw-tooth, backward jumps, sub-granularity advance, runs of equal readings, zero, near 2^62, random) from 1-64 goroutines, optionally seeded above the clock: per-caller strict increase, global uniqueness, above the seed, and real-time order (a call that started after another returned gets a larger timestamp) are checked by an n log n sweep; (bucket) the same scripts are installed into the process-global clock while 3-8 writers hit 2-3 buckets (memory and disk mixed) through the CAS-returning regular entry points: same checks over casOut across all buckets, no two events of a collection share a CAS, and per key the CAS grows strictly along the order in which the writes were applied (delivery order and revision numbers of live feeds on every collection, flushed by a sentinel) the stored CAS is the largest any writer was handed for that key and equals the CAS of the last applied write (Add and Delete, which return no CAS, are in the mix; in a third of the scenarios replicated versions of the same keys arrive with a CAS ten minutes ahead, which every later regular write of the key must exceed); (reopen) writer and reopener child processes with a rewound clock: see the C10 engine part 'reopen-clock' (half of the pairs after WithMeta writes carrying old CAS values into several collections, a quarter ending with such a write into a collection of its own); blind Set / SetRaw writes with and without PreserveExpiry; the stored CAS of every key must equal the CAS of its last event; (reopen) pairs whose last write is a replicated version with a CAS ahead of the writer's clock: a CAS-checked rewrite of that key after the reopen must get a larger CAS; Append writes in the bucket-clock runs; WriteResurrectionWithXattrs and same-content double writes in the bucket-clock runs; cell = (clock class, callers, seeded) / (clock class, buckets, writers)",
 		Assumptions: []string{"clock readings are bounded to [0, 2^62] (CAS is stored in a signed 64-bit SQLite integer)", "WithMeta writes carry caller-chosen CAS and are excluded by the statement"},
 		Parts: []sup.Part{
 			{Name: "hlc-scripts", Timeout: 60 * time.Second, Count: func(t string) int { return tierN(t, 450, 9000) }, Run: func(c *sup.Ctx) {
